@@ -97,13 +97,18 @@ func invalidInput(kind string, ps int) []byte {
 		b := append([]byte(nil), good[:100]...)
 		binary.BigEndian.PutUint32(b[28:], 0)
 		return b
+	case "zero-pagecount-full-image":
+		// a complete image whose in-header page count is 0 (files last written by SQLite before 3.7.0 look like this)
+		b := append([]byte(nil), good...)
+		binary.BigEndian.PutUint32(b[28:], 0)
+		return b
 	case "garbage":
 		return bytes.Repeat([]byte{0xAB}, 2000)
 	}
 	panic("unknown invalid kind " + kind)
 }
 
-var invalidKinds = []string{"empty", "99-bytes", "100-bytes", "bad-magic", "short-by-1", "one-page-of-three", "page-and-a-half", "header-count-too-big", "pagesize-field-0", "pagesize-field-3", "pagesize-field-1000", "zero-pages", "garbage"}
+var invalidKinds = []string{"empty", "99-bytes", "100-bytes", "bad-magic", "short-by-1", "one-page-of-three", "page-and-a-half", "header-count-too-big", "pagesize-field-0", "pagesize-field-3", "pagesize-field-1000", "zero-pages", "zero-pagecount-full-image", "garbage"}
 
 type digest struct {
 	pos   string
@@ -324,6 +329,28 @@ func run1(t *testing.T, c Case) (res Result) {
 			}
 			if got := uint64(db.Pos().TXID); got != prevTXID+1 {
 				viol("import-txid/"+c.Target, "import moved the TXID from %d to %d, want exactly one new transaction", prevTXID, got)
+			}
+			if img == nil {
+				// An input this check calls invalid was accepted. That is allowed only as a success: the next export has to
+				// return the imported bytes (but for the eight header bytes an import resets).
+				rc, xerr := client.Export(ctx, "http://P", "db")
+				var got []byte
+				if xerr == nil {
+					got, xerr = io.ReadAll(rc)
+					rc.Close()
+				}
+				want := append([]byte(nil), body...)
+				for _, off := range []int{24, 25, 26, 27, 40, 41, 42, 43} {
+					if off < len(want) {
+						want[off] = 0
+					}
+					if off < len(got) {
+						got[off] = 0
+					}
+				}
+				if xerr != nil || !bytes.Equal(got, want) {
+					viol("accepted-import-not-exported/"+c.Invalid, "the import of input %q (%d bytes) reported success, but the next export does not return those bytes (export: %d bytes, err=%v; database now has %d pages at %s)", c.Invalid, len(body), len(got), xerr, db.PageN(), db.Pos())
+				}
 			}
 			if img != nil {
 				want := img.Clone()
